@@ -72,6 +72,9 @@ const WATCHDOG_SECS: u64 = 20;
 
 /// fits that hit the watchdog so far: after 3 the watchdog shrinks to 3 s, after 8 the remaining search is skipped
 /// (the verdict is a violation already; a change that makes many fits loop must not make the check run for hours)
+/// fits whose near-optimality was certified by a dual lower bound / neither certified nor refuted by a witness
+static CERTIFIED: std::sync::atomic::AtomicUsize = std::sync::atomic::AtomicUsize::new(0);
+static INCONCLUSIVE: std::sync::atomic::AtomicUsize = std::sync::atomic::AtomicUsize::new(0);
 static TIMEOUTS: std::sync::atomic::AtomicUsize = std::sync::atomic::AtomicUsize::new(0);
 fn timeouts() -> usize {
     TIMEOUTS.load(std::sync::atomic::Ordering::SeqCst)
@@ -268,14 +271,24 @@ fn check_fit(c: &Case, y: &[f64], f: &FitOut, rf: &Reference, fails: &mut Vec<Fa
     let yscale = rf.yc.iter().map(|v| v * v).sum::<f64>();
     let obj = objective(&rf.d.z, &rf.yc, rf.l1, rf.l2, &w);
     let slack = 1e-9 * yscale + 1e-300;
-    if !(obj <= rf.lower * (1.0 + C_TOL * c.tol) + slack) {
+    // FAIL only on a witness: the independent solver's point w_ref is a real point of the domain, so
+    // obj > (1 + C_TOL*tol) * objective(w_ref) >= (1 + C_TOL*tol) * optimum is a violation whatever the quality of w_ref.
+    // PASS evidence: obj <= (1 + C_TOL*tol) * (certified dual lower bound), the bound built from w_ref and from the
+    // returned w itself (valid for any seed by weak duality). Neither (reference not converged on a badly conditioned
+    // design and the returned w certified only by an earlier iterate's dual point) is counted as inconclusive.
+    let lower = rf.lower.max(dual_lower_bound(&rf.d.z, &rf.yc, rf.l1, rf.l2, &w));
+    if !(obj <= rf.upper * (1.0 + C_TOL * c.tol) + slack) {
         fails.push(Fail {
             oracle: "near_optimal",
             what: format!(
-                "{}: objective {:e} of the returned coefficients exceeds the certified lower bound {:e} of the optimum by {:e} relative (allowed {:e}); reference solution reaches {:e}",
-                who, obj, rf.lower, (obj - rf.lower) / rf.lower.abs().max(1e-300), C_TOL * c.tol, rf.upper
+                "{}: objective {:e} of the returned coefficients exceeds the objective {:e} reached by an independent solver by {:e} relative (allowed {:e}); certified lower bound of the optimum {:e}",
+                who, obj, rf.upper, (obj - rf.upper) / rf.upper.abs().max(1e-300), C_TOL * c.tol, lower
             ),
         });
+    } else if obj <= lower * (1.0 + C_TOL * c.tol) + slack {
+        CERTIFIED.fetch_add(1, std::sync::atomic::Ordering::SeqCst);
+    } else {
+        INCONCLUSIVE.fetch_add(1, std::sync::atomic::Ordering::SeqCst);
     }
     // a constant target: the optimum is w = 0 with intercept mean(y)
     if rf.yc.iter().all(|v| *v == 0.0) {
@@ -313,9 +326,22 @@ fn evaluate(c: &Case) -> (Vec<Fail>, Option<(Outcome, Reference)>) {
         Outcome::Timeout => fails.push(Fail { oracle: "termination", what: format!("{}: fit did not return within {} s", who, WATCHDOG_SECS) }),
         Outcome::Panic(m) => fails.push(Fail { oracle: "no_panic", what: format!("{}: fit panicked: {}", who, m) }),
         Outcome::Err(e, _) => fails.push(Fail { oracle: "valid_input_fits", what: format!("{}: fit returned Err on a valid input: {}", who, e) }),
-        Outcome::Ok(f, _) => {
+        Outcome::Ok(f, runs) => {
             let (_, w) = check_fit(c, &c.y, f, &rf, &mut fails);
             base_w = Some((f.clone(), w));
+            // the loop's actual exit against the stated stopping rule gap/dobj < tol || gap <= 0 as the trace hook
+            // evaluates it at every iteration: left before the budget <=> the rule held at the last recorded iteration
+            if let Some(r) = runs.first() {
+                let last_stopped = r.iters.last().map(|it| it.stopped).unwrap_or(false);
+                let early = r.iters.len() < r.max_iter || r.exit == "gap";
+                if (r.exit == "gap") != last_stopped || (r.exit == "max_iter" && r.iters.len() != r.max_iter) || (early && !last_stopped) {
+                    let gd = r.iters.last().map(|it| it.gap / it.dobj).unwrap_or(f64::NAN);
+                    fails.push(Fail {
+                        oracle: "exit_rule",
+                        what: format!("{}: optimize left its loop after {} of {} iterations (recorded exit '{}') although gap/dobj = {:e} at the last iteration does not satisfy the stopping rule with tol = {:e} (or the rule held and the loop went on)", who, r.iters.len(), r.max_iter, r.exit, gd, r.tol),
+                    });
+                }
+            }
         }
     }
     // shifted targets: same coefficients (both fits certified against the SAME centred objective), intercept + shift
@@ -1075,6 +1101,14 @@ fn main() {
             let fails = evaluate_invalid(&c);
             record(&mut out, &c, fails, "invalid");
         }
+    }
+    out.set("near_optimal_evidence", json!({
+        "fits_certified_by_dual_bound": CERTIFIED.load(std::sync::atomic::Ordering::SeqCst),
+        "fits_neither_certified_nor_refuted": INCONCLUSIVE.load(std::sync::atomic::Ordering::SeqCst),
+        "rule": "fail iff objective(returned w) > (1 + 2 tol) * objective(independent coordinate-descent point) + 1e-9|yc|^2; certified iff objective(returned w) <= (1 + 2 tol) * max(dual bound seeded by the reference, dual bound seeded by the returned w) + 1e-9|yc|^2"
+    }));
+    for _ in 0..INCONCLUSIVE.load(std::sync::atomic::Ordering::SeqCst) {
+        out.count("search:near-optimal:neither-certified-nor-refuted");
     }
     if timing { eprintln!("[c08 timing] {:.1}s end", t_start.elapsed().as_secs_f64()); }
     out.finish(&a.out);
